@@ -85,6 +85,11 @@ var (
 	syncCount [NumOps]int64
 
 	callsDoneAll int64
+
+	// goroutines the library started outside any run (package initialisers,
+	// lazily started helpers that outlive a run): adopted by the next run
+	pendingBG [64]*Task
+	pendingN  int
 )
 
 // Task is one simulated caller goroutine.
@@ -107,6 +112,7 @@ type Task struct {
 	prio       int
 	parent     int
 	fn         func() // body for spawned (library-created) tasks
+	wakeAt     int64  // simulated ns at which a sleeping task becomes runnable
 	body       func(t *Task)
 
 	// stats (scheduler-only)
@@ -121,6 +127,7 @@ const (
 	stBlocked
 	stCondWait
 	stDone
+	stSleeping
 )
 
 // Yield is the ordinary yield site inserted by the instrumenter.
